@@ -520,12 +520,12 @@ class Playing(ABC):
 
     def _post_process(self) -> None:
         if self._position:
-            # Make sure position never is negative
-            self._position = max(self._position, 0)
-
             # If there's a total time, never exceed that'
             if self._total_time:
                 self._position = min(self._position, self._total_time)
+
+            # Make sure position never is negative (not even if total time is)
+            self._position = max(self._position, 0)
 
     def __str__(self) -> str:  # pylint: disable=too-many-branches
         """Convert this playing object to a readable string."""
